@@ -1,5 +1,5 @@
 (* C17 - verdicts do not depend on the order of SAN entries or of extensions.  Statements only (proofs: Kernels/Order.v). *)
-From ZL Require Import Base.Bytes Kernels.Order Kernels.Names Kernels.NamesFacts Kernels.GeneralNames Kernels.GeneralNamesFacts Kernels.CnSan Kernels.SubjLen Kernels.Arpa Kernels.Tor Kernels.TorFacts Kernels.Der Kernels.DerFacts Kernels.Urls Kernels.UrlsFacts Kernels.SubjPresence.
+From ZL Require Import Base.Bytes Kernels.Order Kernels.Names Kernels.NamesFacts Kernels.GeneralNames Kernels.GeneralNamesFacts Kernels.CnSan Kernels.SubjLen Kernels.Arpa Kernels.Tor Kernels.TorFacts Kernels.Der Kernels.DerFacts Kernels.Urls Kernels.UrlsFacts Kernels.SubjPresence Kernels.NcForm Kernels.Policies Kernels.EvPresence Kernels.CaSubject.
 From Coq Require Import Sorting.Permutation ZArith List.
 Open Scope Z_scope.
 
@@ -113,6 +113,23 @@ Proof. exact url_lints_perm. Qed.
 Theorem c17_presence_lints_perm : forall v ts, Permutation (s_types v) ts -> all_presence_lints (with_types v ts) = all_presence_lints v.
 Proof. exact presence_lints_perm. Qed.
 
+(* the six lints about the form of nameConstraints: the order of the subtrees inside each list is immaterial *)
+Theorem c17_nc_form_perm : forall v ls', Forall2 (@Permutation (Z * Z)) (nc_lists v) ls' ->
+  all_nc_form_lints (mkNc (nc_ext v) (nc_is_ca v) ls') = all_nc_form_lints v.
+Proof. exact nc_form_perm. Qed.
+
+(* e_ext_cert_policy_duplicate: the same for every order of the policies *)
+Theorem c17_policy_duplicate_perm : forall v ids', Permutation (p_ids v) ids' ->
+  q_duplicate (mkPol (p_ext v) ids' (p_numbers v) (p_orgs v) (p_texts v)) = q_duplicate v.
+Proof. exact duplicate_perm. Qed.
+
+Theorem c17_ev_lints_perm : forall v ts, Permutation (ev_types v) ts -> all_ev_lints (mkEv ts (ev_serials v) (ev_ips v)) = all_ev_lints v.
+Proof. exact ev_lints_perm. Qed.
+
+Theorem c17_gn_sn_policy_perm : forall v ps, Permutation (cs_policies v) ps ->
+  c_gn_sn_policy (mkCs (cs_cn_empty v) (cs_countries v) (cs_orgs v) (cs_names v) (cs_san_ext v) (cs_ou v) ps (cs_nb v) (cs_na v)) = c_gn_sn_policy v.
+Proof. exact gn_sn_policy_perm. Qed.
+
 Print Assumptions c17_first_offender_perm.
 Print Assumptions c17_label_lints_perm.
 Print Assumptions c17_na_first_refuted.
@@ -140,3 +157,7 @@ Print Assumptions c17_empty_name_spec.
 Print Assumptions c17_empty_name_perm.
 Print Assumptions c17_url_lints_perm.
 Print Assumptions c17_presence_lints_perm.
+Print Assumptions c17_nc_form_perm.
+Print Assumptions c17_policy_duplicate_perm.
+Print Assumptions c17_ev_lints_perm.
+Print Assumptions c17_gn_sn_policy_perm.
